@@ -254,6 +254,16 @@ pub fn scenario(g: &mut G, ctx: &RunCtx) -> RunReport {
         }
         fields.push(Field { name, raw });
     }
+    // (no draw) more field lines than the header map has slots for *names* (2^15), spread over a handful of
+    // names, under a limit raised above that: all of them are within the caller's limit and must be reported
+    let drawn_fields = fields.len();
+    if limit == 100_000 && nfields >= 30 {
+        for j in 0..32_800usize {
+            fields.push(Field { name: format!("X-Rep-{}", j % 5), raw: j.to_string().into_bytes() });
+        }
+        g.probe("more-than-2^15-field-lines-over-few-names");
+    }
+    let nfields = fields.len().max(nfields);
     let mut wire = Vec::new();
     wire.extend_from_slice(version.as_bytes());
     wire.push(b' ');
@@ -264,10 +274,10 @@ pub fn scenario(g: &mut G, ctx: &RunCtx) -> RunReport {
     }
     wire.extend_from_slice(b"\r\n");
     let mut targets = vec![wire.len() - 1, wire.len()];
-    for f in &fields {
+    for (fi, f) in fields.iter().enumerate() {
         wire.extend_from_slice(f.name.as_bytes());
         wire.push(b':');
-        if !f.raw.starts_with(b" ") && (f.raw.len() > 16_000 || g.chance(3, 4)) {
+        if !f.raw.starts_with(b" ") && (f.raw.len() > 16_000 || fi >= drawn_fields || g.chance(3, 4)) {
             wire.push(b' ');
         }
         wire.extend_from_slice(&f.raw);
